@@ -18,13 +18,18 @@
       probable element of its heap (C03_HS_heaps_valid, C03_HS_pop_max) — any grammar, any filter;
     * monotonicity: replacing an argument by a less probable one does not increase the probability
       (C03_HS_prob_mono; whole programs: HS.prob_set_le); `+=` of buckets is strictly monotone;
-    * on ACYCLIC context-free grammars without filter the order invariant `HS.OInv` (DESIGN B.2 (I1),
-      (I4)) is preserved by `query` under the precondition (I5) (C03_HS_order_step), and the
-      yielded sequence is non-increasing in probability provided the state produced by the prologue
-      satisfies the invariant (C03_HS_sorted_partial).
-  NOT proved: that the prologue establishes the order invariant ((I1) at initialisation: the first
-  program popped for `S` is `max_priority[S]`), the bucket-search version of the order invariant,
-  and prefix completeness; checked on every generated case (exact Fractions).
+    * tie-breaking: `heappush` replaces the root only by a strictly smaller element
+      (C03_HS_heappush_root), the same choice as the strict `<` of `__compute_max_prio__`;
+    * BEST-FIRST ORDER on ACYCLIC context-free grammars (heap search, threshold 0, no filter, no
+      empty row): the yielded probabilities are non-increasing, for every fuel and number of steps —
+      C03_HS_sorted.  Ingredients: the max-priority phase leaves tables in sync and `__init_heap__`
+      builds a state whose initial programs use the first pops of their arguments (C03_HS_base), the
+      first queries and every later `query` keep the order invariant `HS.OInv` = DESIGN B.2 (I1), (I4),
+      under precondition (I5) (C03_HS_order_step); C03_HS_sorted_partial is the same from a hypothesis
+      on the state produced by the prologue (any threshold).
+  NOT proved: the bucket-search version of the order invariant, heap search with a positive
+  threshold from scratch, and prefix completeness ("every strictly more probable program was
+  yielded before" — needs completeness, C02); checked on every generated case (exact Fractions).
 -/
 import PS.Model.Enum.HeapSearch
 import PS.Proofs.Enum.Heapq
@@ -35,6 +40,7 @@ import PS.Model.Prob
 import PS.Proofs.Enum.HSHeaps
 import PS.Proofs.Enum.HSOrder
 import PS.Proofs.Enum.HSOrderCheck
+import PS.Proofs.Enum.HSSorted
 namespace PS.C03HS
 open PS PS.G PS.HS
 
@@ -163,34 +169,65 @@ end Heaps
 section Order
 variable {S : Type} [DecidableEq S]
 
-/-- **the order invariant is preserved by `query`**: `HS.OInv E s` says, for every non-terminal,
+/-- **the order invariant is preserved by `query`**: `HS.OInv E H0 s` says, for every non-terminal,
     (I4) no heap element is more probable than a program already popped, a recorded successor is not
     more probable than its predecessor, (I1) the arguments of every program ever pushed were popped
-    for their non-terminals.  Under `HS.OrdHyp` (priorities = probabilities, non-negative weights, the
-    grammar is NOT recursive: `rank` decreases from a non-terminal to the non-terminals of its rules)
-    and the precondition (I5) "the key was popped for the non-terminal", `query` keeps it.
+    for their non-terminals — or the enumeration of that non-terminal has not started and the
+    argument is what its initial heap `H0` pops first.  Under `HS.OrdHyp` (priorities = probabilities,
+    non-negative weights, the grammar is NOT recursive: `rank` decreases from a non-terminal to the
+    non-terminals of its rules) and the precondition (I5) "the key was popped for the non-terminal
+    (or is its first pop)", `query` keeps it.
     On recursive grammars this is false (`finding_C03_HS_reentrant`). -/
-theorem C03_HS_order_step (E : Env S Unit Rat) (rank : NT S Unit → Nat) (H : OrdHyp E rank) (n : Nat)
+theorem C03_HS_order_step (E : Env S Unit Rat) (rank : NT S Unit → Nat) (H : OrdHyp E rank)
+    (H0 : NT S Unit → List (Rat × Prog)) (n : Nat)
     (s s' : St S Unit Rat) (nt : NT S Unit) (p r : Option Prog)
-    (hs : SInv E s) (hn : NInv s) (hh : HInv E s) (ho : OInv E s)
-    (hp : ∀ x, p = some x → ∃ k, AList.lookup k (s.succOf nt) = some x)
-    (h : query E n s nt p = some (s', r)) : OInv E s' :=
+    (hs : SInv E s) (hn : NInv s) (hh : HInv E s) (ho : OInv E H0 s)
+    (hp : ∀ x, p = some x → (∃ k, AList.lookup k (s.succOf nt) = some x) ∨ (s.succOf nt = [] ∧ FP E H0 nt x))
+    (h : query E n s nt p = some (s', r)) : OInv E H0 s' :=
   (big_order H (big_of_query E h) hs hn hh ho trivial trivial hp).1
 
-/-- **best-first order, partial**: the yielded probabilities are non-increasing, PROVIDED the state
-    produced by the prologue of `generator()` satisfies the order invariant (`hpro`).
-    FULL statement = the same without `hpro`.  What is missing is exactly
-    `prologue E fuel (St.empty G) = some s0 → OInv E s0`, i.e. (I1) at initialisation: the first
-    program popped for each non-terminal is `max_priority[S]` (tie-breaking of `__compute_max_prio__`
-    and of `heappush` agree) — checked by kernel evaluation on the example below and, on every generated
-    case, by the exact correspondence model = implementation plus the sortedness oracle. -/
+/-- **tie-breaking of heapq**: `heappush` replaces the root only by a strictly smaller element, so
+    the first pop of a heap built by pushes is the first minimum in push order -/
+theorem C03_HS_heappush_root {α : Type} (lt : α → α → Bool) (w : Heapq.WeakOrder lt) (h : List α) (x : α)
+    (hh : Heapq.IsHeap lt h) : (Heapq.push lt h x).head? = Heapq.bestStep lt h.head? x :=
+  Heapq.push_head w h x hh
+
+example : (Heapq.push (fun a b : Nat × Nat => decide (a.1 < b.1)) [(1, 0), (3, 0)] (1, 7)).head? = some (1, 0) := by
+  decide
+
+/-- **the max-priority phase leaves tables in sync** (`HS.MaxOK`: `max_priority[(S, P)]` is `P` applied
+    to the current `max_priority[Si]`, `max_priority[S]` is the first best of them in rule order) and
+    `__init_heap__` then builds a state in which every argument of an initial program is the first
+    pop of its non-terminal (`HS.Base`) — acyclic grammar, no empty row, dict keys distinct -/
+theorem C03_HS_base (E : Env S Unit Rat) (rank : NT S Unit → Nat) (HI : InitHyp E rank)
+    (w : Heapq.WeakOrder E.ops.lt) (hthr : E.ops.thr = none) (hk : (AList.keys E.G.rules).Nodup) (fuel : Nat) :
+    ∀ s3, preHeaps E fuel (St.empty E.G) = some s3 → Base E s3 :=
+  preHeaps_base E rank HI w hthr hk fuel
+
+/-- **BEST-FIRST ORDER** of heap search (`HeapSearch`, threshold 0, no filter) on an ACYCLIC
+    context-free grammar: for every fuel and every number of steps the yielded probabilities
+    are non-increasing.  Hypotheses (all decidable on a literal grammar, see the example):
+    `OrdHyp` — priorities are the probabilities, weights non-negative, `rank` strictly decreases from
+    a non-terminal to the non-terminals of its rules; `InitHyp` — dict rows have distinct keys, same
+    acyclicity, no non-terminal with an empty row; the rule table has distinct keys.
+    Without acyclicity the statement is false (`finding_C03_HS_reentrant`). -/
+theorem C03_HS_sorted (E : Env S Unit Rat) (rank : NT S Unit → Nat) (H : OrdHyp E rank) (HI : InitHyp E rank)
+    (hthr : E.ops.thr = none) (hk : (AList.keys E.G.rules).Nodup) (hf : ∀ p, E.filter p = true)
+    (fuel k : Nat) (g' : Gen S Unit Rat) (out : List Prog) (b : Bool)
+    (h : take E fuel k (Gen.new E.G) [] = some (g', out, b)) :
+    out.Pairwise (fun p q => G.prob E.G E.W q E.G.start ≤ G.prob E.G E.W p E.G.start) :=
+  take_sorted E rank H HI hthr hk hf fuel k g' out b h
+
+/-- the same from a hypothesis on the state produced by the prologue only (any threshold; kept for
+    grammars outside `InitHyp`): the yielded probabilities are non-increasing PROVIDED the state produced
+    by the prologue of `generator()` satisfies the order invariant for some reference heaps. -/
 theorem C03_HS_sorted_partial (E : Env S Unit Rat) (rank : NT S Unit → Nat) (H : OrdHyp E rank)
     (hnd : RowsNodup E.G) (hf : ∀ p, E.filter p = true) (fuel k : Nat)
-    (hpro : ∀ s0, prologue E fuel (St.empty E.G) = some s0 → OInv E s0)
+    (hpro : ∀ s0, prologue E fuel (St.empty E.G) = some s0 → ∃ H0, OInv E H0 s0)
     (g' : Gen S Unit Rat) (out : List Prog) (b : Bool)
     (h : take E fuel k (Gen.new E.G) [] = some (g', out, b)) :
     out.Pairwise (fun p q => G.prob E.G E.W q E.G.start ≤ G.prob E.G E.W p E.G.start) :=
-  (take_order H hnd hf fuel k _ _ _ _ _ (og_new E fuel hpro) h).sorted
+  take_sorted_of_pro H hnd hf fuel k hpro g' out b h
 
 /-! non-vacuity: `S0 → 1 | + S1 S1`, `S1 → 1 | x` -/
 def oInt : Ty := .base "int"
@@ -207,12 +244,23 @@ def oRank (nt : NT Nat Unit) : Nat := 1 - nt.2.1
 theorem oHyp : OrdHyp oE oRank :=
   ⟨⟨0, rfl⟩, wnonneg_of_all oW (by decide +kernel), acyclic_of_all oG oRank (by decide)⟩
 
+theorem oInit : InitHyp oE oRank :=
+  ⟨rowsNodup_of_all oG (by decide), acyclic_of_all oG oRank (by decide), by
+    intro nt rs h
+    have hm := AList.lookup_some_mem h
+    simp only [oE, oG, List.mem_cons, Prod.mk.injEq, List.not_mem_nil, or_false] at hm
+    rcases hm with ⟨_, rfl⟩ | ⟨_, rfl⟩ <;> simp⟩
+
 /-- the state produced by the prologue satisfies the order invariant (kernel evaluation) -/
-theorem oPro : ∀ s0, prologue oE 50 (St.empty oG) = some s0 → OInv oE s0 := by
+theorem oPro : ∀ s0, prologue oE 50 (St.empty oG) = some s0 → ∃ H0, OInv oE H0 s0 := by
   have h : (prologue oE 50 (St.empty oG)).all (oinvB oE) = true := by decide +kernel
   intro s0 hs0
   rw [hs0] at h
-  exact oinv_of_oinvB oE s0 h
+  exact ⟨s0.heapOf, oinv_of_oinvB oE s0 h⟩
+
+example : ∀ g' out b, take oE 50 10 (Gen.new oG) [] = some (g', out, b) →
+    out.Pairwise (fun p q => G.prob oG oW q oG.start ≤ G.prob oG oW p oG.start) :=
+  fun g' out b h => C03_HS_sorted oE oRank oHyp oInit rfl (by decide) (fun _ => rfl) 50 10 g' out b h
 
 example : ∀ g' out b, take oE 50 10 (Gen.new oG) [] = some (g', out, b) →
     out.Pairwise (fun p q => G.prob oG oW q oG.start ≤ G.prob oG oW p oG.start) :=
